@@ -29,7 +29,12 @@ type c02Op struct {
 	Via  int    `json:"via"` // 0: oldest live member, 1: youngest live member
 }
 
-func (o c02Op) String() string { return fmt.Sprintf("%s(k%d via %s)", o.Kind, o.Key, []string{"oldest", "youngest"}[o.Via]) }
+func (o c02Op) String() string {
+	if o.Kind == "join" {
+		return "join(new member)"
+	}
+	return fmt.Sprintf("%s(k%d via %s)", o.Kind, o.Key, []string{"oldest", "youngest"}[o.Via])
+}
 
 type c02Cfg struct {
 	N          int     `json:"n"`
@@ -37,6 +42,8 @@ type c02Cfg struct {
 	RR         bool    `json:"read_repair"`
 	Ops        []c02Op `json:"ops"`
 	StabFaults bool    `json:"stab_faults"` // members may also stop during the re-stabilisation that follows an earlier stop
+	Table      int     `json:"table,omitempty"` // storage table size (0: 64 KiB); 128 makes fragments span several tables
+	Fill       int     `json:"fill,omitempty"`  // extra keys written into k0's partition at the start
 }
 
 func (c c02Cfg) String() string {
@@ -44,7 +51,11 @@ func (c c02Cfg) String() string {
 	for _, o := range c.Ops {
 		ops = append(ops, o.String())
 	}
-	return fmt.Sprintf("N=%d R=%d read-repair=%v workload=[%s]", c.N, c.R, c.RR, strings.Join(ops, " ; "))
+	t := ""
+	if c.Table != 0 {
+		t = fmt.Sprintf(" table=%d extra-keys=%d", c.Table, c.Fill)
+	}
+	return fmt.Sprintf("N=%d R=%d read-repair=%v%s workload=[%s]", c.N, c.R, c.RR, t, strings.Join(ops, " ; "))
 }
 
 type c02Point struct {
@@ -82,10 +93,11 @@ type c02Snap struct {
 	holders map[string][]int // key -> members holding a copy
 	coloc   map[string]bool  // key -> a member holds the primary and a replica copy, or a listed backup owner holds nothing
 	live    int
+	first   bool // taken at the instant of the first stop of the run (the cluster was in the middle of a hand-over)
 }
 
 func (r *c02Run) snapshot() {
-	sn := c02Snap{holders: map[string][]int{}, coloc: map[string]bool{}, live: len(r.live())}
+	sn := c02Snap{holders: map[string][]int{}, coloc: map[string]bool{}, live: len(r.live()), first: r.fails == 0}
 	for _, k := range r.keys {
 		kinds := map[int]map[string]bool{}
 		for _, c := range r.cl.Copies("d", k) {
@@ -112,7 +124,7 @@ func (r *c02Run) snapshot() {
 
 // explainedByColocation: at some earlier re-stabilisation the key was held by fewer members than
 // min(R, live), in a co-located layout, and every one of those holders has stopped since.
-func (r *c02Run) explainedByColocation(key string) bool {
+func (r *c02Run) explainedByColocation(key string) string {
 	for _, sn := range r.snaps {
 		h := sn.holders[key]
 		min := r.cfg.R
@@ -131,10 +143,13 @@ func (r *c02Run) explainedByColocation(key string) bool {
 			}
 		}
 		if allGone {
-			return true
+			if sn.first {
+				return "during-handover"
+			}
+			return "after-rebalance"
 		}
 	}
-	return false
+	return ""
 }
 
 func (r *c02Run) choose(n int, desc func(alt int) string) int {
@@ -230,9 +245,8 @@ func (r *c02Run) arm(during string) {
 			return simnet.Deliver
 		}
 		x := alts[ch-1]
-		if r.fails > 0 {
-			r.snapshot() // where the copies sit at the instant of a further stop
-		}
+		r.trace("at the instant of the fault: " + desc(ch))
+		r.snapshot() // where the copies sit at the instant of the stop
 		r.fails++
 		r.classes = append(r.classes, fmt.Sprintf("%s@%s", simnet.FaultNames[x.f], rpc.Cmd))
 		if x.latent {
@@ -266,9 +280,7 @@ func (r *c02Run) gap(where string) {
 			return
 		}
 		m, k := live[(ch-1)/3], (ch-1)%3
-		if r.fails > 0 {
-			r.snapshot()
-		}
+		r.snapshot()
 		r.fails++
 		switch k {
 		case 0:
@@ -297,15 +309,51 @@ func (r *c02Run) via(v int) *simcluster.Member {
 	return live[len(live)-1]
 }
 
+// kv opens the DMap on m; a member that cannot serve (not bootstrapped: it joined while the
+// coordinator was gone) yields a client whose operations fail.
 func (r *c02Run) kv(m *simcluster.Member) simcluster.KV {
 	dm, err := m.Emb.NewDMap("d")
 	if err != nil {
-		panic(fmt.Sprintf("c02: NewDMap on member%d: %v", m.Idx, err))
+		return failingKV{simcluster.ErrClass(err)}
 	}
 	return simcluster.WrapDMap(fmt.Sprintf("member%d", m.Idx), dm)
 }
 
+type failingKV struct{ err string }
+
+func (f failingKV) res() simcluster.Res { return simcluster.Res{Err: "cannot-open-dmap:" + f.err} }
+
+func (f failingKV) Label() string                                               { return "failing" }
+func (f failingKV) Put(string, []byte, simcluster.PutOpt) simcluster.Res       { return f.res() }
+func (f failingKV) Get(string) simcluster.Res                                  { return f.res() }
+func (f failingKV) Del(...string) simcluster.Res                               { return f.res() }
+func (f failingKV) Incr(string, int) simcluster.Res                            { return f.res() }
+func (f failingKV) Decr(string, int) simcluster.Res                            { return f.res() }
+func (f failingKV) IncrByFloat(string, float64) simcluster.Res                 { return f.res() }
+func (f failingKV) GetPut(string, []byte) simcluster.Res                       { return f.res() }
+func (f failingKV) Expire(string, time.Duration) simcluster.Res                { return f.res() }
+func (f failingKV) Lock(string, time.Duration, time.Duration) simcluster.Res   { return f.res() }
+func (f failingKV) Unlock(string, []byte) simcluster.Res                       { return f.res() }
+func (f failingKV) Lease(string, []byte, time.Duration) simcluster.Res         { return f.res() }
+func (f failingKV) Destroy() simcluster.Res                                    { return f.res() }
+
 func (r *c02Run) doOp(o c02Op) {
+	if o.Kind == "join" {
+		idx := 0
+		for _, m := range r.cl.Members {
+			if m.Idx >= idx {
+				idx = m.Idx + 1
+			}
+		}
+		if _, err := r.cl.StartMember(idx); err != nil {
+			r.failf("join-failed", "a new member could not join: %v", err)
+			return
+		}
+		// the hand-over (routing pushes, one table move after the other, pruning) with a fault
+		// decision at every command delivered between members
+		r.restabilise(true)
+		return
+	}
 	m := r.via(o.Via)
 	key := r.keys[o.Key]
 	r.opSeq++
@@ -355,7 +403,7 @@ func (r *c02Run) trace(what string) {
 func c02Execute(cfg c02Cfg, prefix []int) *c02Run {
 	sched.ResetClock()
 	r := &c02Run{cfg: cfg, prefix: prefix, hist: map[string][]c02Rec{}}
-	r.cl = simcluster.New(simcluster.Opts{N: cfg.N, Replicas: cfg.R, WriteQ: 1, ReadQ: 1, Partitions: 7, ReadRepair: cfg.RR})
+	r.cl = simcluster.New(simcluster.Opts{N: cfg.N, Replicas: cfg.R, WriteQ: 1, ReadQ: 1, Partitions: 7, ReadRepair: cfg.RR, TableSize: cfg.Table})
 	cl := r.cl
 	simnet.N.OnKill = func(name string) {
 		if m := cl.ByName(name); m != nil && m.Alive {
@@ -369,6 +417,10 @@ func c02Execute(cfg c02Cfg, prefix []int) *c02Run {
 	for i, w := range want {
 		w := w
 		r.keys = append(r.keys, cl.FindKey(fmt.Sprintf("k%d-", i), func(k string) bool { return cl.Owner(view, "d", k).Idx == w }))
+	}
+	for i := 0; i < cfg.Fill; i++ {
+		part := cl.PartID("d", r.keys[0])
+		r.keys = append(r.keys, cl.FindKey(fmt.Sprintf("x%d-", i), func(k string) bool { return cl.PartID("d", k) == part }))
 	}
 	for _, k := range r.keys {
 		res := r.kv(cl.Members[0]).Put(k, []byte("init"), simcluster.PutOpt{})
@@ -443,8 +495,11 @@ func (r *c02Run) judge() {
 			if g == "" {
 				g = "<not found>"
 			}
-			if sym == "acknowledged-put-lost" && r.explainedByColocation(key) {
+			if why := r.explainedByColocation(key); sym == "acknowledged-put-lost" && why == "after-rebalance" {
 				r.failf("replica-colocated-with-primary-after-rebalance/acknowledged-put-lost", "(%s) after the re-stabilisation that followed an earlier stop the only copies of k%d sat on one member (primary copy and replica together) while a listed backup owner held nothing; that member stopped next: Get(k%d) on member%d returns <not found>, allowed %v; history of the key: %s", class, ki, ki, m.Idx, al, strings.Join(descs, " | "))
+				continue
+			} else if sym == "acknowledged-put-lost" && why == "during-handover" {
+				r.failf("replica-colocated-with-primary-during-handover/acknowledged-put-lost", "(%s) in the middle of the hand-over that followed a join the only copies of k%d sat on one member (its primary copy, not yet moved to the new owner, and the replica the other member had just handed to it) at the instant that member stopped: Get(k%d) on member%d returns <not found>, allowed %v; history of the key: %s", class, ki, ki, m.Idx, al, strings.Join(descs, " | "))
 				continue
 			}
 			r.failf(kp+sym, "after re-stabilisation Get(k%d) on member%d returns %s, allowed %v; history of the key: %s; copies: %s", ki, m.Idx, g, al, strings.Join(descs, " | "), r.copies(key))
@@ -642,7 +697,7 @@ func init() {
 			Cfg     *c02Cfg `json:"cfg"`
 			Choices []int   `json:"choices"`
 		}
-		if id != "C02" || json.Unmarshal(raw, &r) != nil || r.Cfg == nil {
+		if (id != "C02" && id != "C03") || json.Unmarshal(raw, &r) != nil || r.Cfg == nil {
 			return false, nil
 		}
 		run := c02Execute(*r.Cfg, r.Choices)
